@@ -103,14 +103,18 @@ End EquivSpec.
 (* ---------------------------------------------------------------------- *)
 (* call history: the allow-list of long-lived mutable / static objects     *)
 (* ---------------------------------------------------------------------- *)
-(* (file relative to the repository root, kind, name).  Kinds:
-     "static-local"      function-local `static` object
-     "static-member"     static data member
-     "global-mutable"    namespace-scope object that is not const
-     "global-const-obj"  namespace-scope const object of class type (runs a
-                         constructor; immutable afterwards, cannot carry history)
-     "rand"              a call of std::rand / srand / random_device / an engine
-     "mutable-member"    `mutable` data member                                  *)
+(* Entries (file relative to include/, kind, name) as generated by translate/t_static.py
+   into coq/gen/Statics.v.  Kinds:
+     "static-local"  / "static-local-const"    function-local `static` object
+     "static-member" / "static-member-const"   static data member
+     "global-mutable" / "global-const"         namespace-scope object
+     "rand"          calls of rand/srand/... in that file, name = "<function>#<count>"
+     "rng-object"    a std::random_device / standard engine object
+     "mutable-member" a `mutable` data member
+     "write"         a textual assignment to / increment of a global-mutable object
+   The "-const" kinds cannot carry information from one call to the next and are not
+   constrained (adding a new method constant is harmless); every other entry must be
+   in the hand-written allow-list below. *)
 Require Import String.
 Definition static_entry : Type := (string * string * string)%type.
 
@@ -126,8 +130,57 @@ Fixpoint entries_eqb (l l' : list static_entry) : bool :=
   | _, _ => false
   end.
 
+Definition kind_of (e : static_entry) : string := match e with (_, k, _) => k end.
+
+Definition const_kinds : list string :=
+  ["static-local-const"; "static-member-const"; "global-const"]%string.
+Definition state_kinds : list string :=
+  ["static-local"; "static-member"; "global-mutable"; "rand"; "rng-object"; "mutable-member";
+   "write"]%string.
+
+Definition str_mem (s : string) (l : list string) : bool := existsb (String.eqb s) l.
+
 (* entries whose kind can carry information from one call to the next *)
-Definition carries_state (e : static_entry) : bool :=
-  match e with
-  | (_, k, _) => negb (String.eqb k "global-const-obj")
-  end.
+Definition carries_state (e : static_entry) : bool := str_mem (kind_of e) state_kinds.
+(* every entry has a kind this file knows about *)
+Definition known_kind (e : static_entry) : bool :=
+  str_mem (kind_of e) state_kinds || str_mem (kind_of e) const_kinds.
+
+(* THE ALLOW-LIST (sorted as the translator sorts).  Why each entry cannot make the numbers
+   returned by embed() depend on earlier calls:
+   - stichwort/policy.hpp `policy`: function-local static PointerTypePolicyImpl<T>, a class
+     without data members (a vtable of type operations);  `s`, `x`: static reference members
+     of a SFINAE probe, declared, only used inside sizeof, never defined.
+   - defines/methods.hpp default_*: namespace-scope objects of internal linkage, initialised
+     once, read by the keyword definitions; no "write" entry exists, i.e. nothing under
+     include/ assigns to them.
+   - defines/random.hpp: the consumers of std::rand (uniform_random_index, uniform_random,
+     gaussian_random: 4 calls), the std::random_device / std::mt19937 locals of
+     random_shuffle, and hook H1's function-local static `hook` (exists only under
+     TAPKEE_VERIF; with no seed and no observer installed random_shuffle ignores it).
+     These make the RANDOMISED methods (landmarks, SPE, random projection, FA, t-SNE,
+     manifold sculpting) depend on the process-wide rand() stream: the property's last
+     sentence is therefore stated, proved and tested for the DETERMINISTIC methods.
+   - routines/manifold_sculpting.hpp: one more std::rand consumer (randomised method).
+   - routines/matrix_operations.hpp `foo`: function-local static std::string constants
+     ("SM"/"LA") returned by const reference.
+   - utils/logging.hpp `s`: the Logging singleton (level flags + sink pointer): it decides
+     what is PRINTED, never what is computed. *)
+Definition allowed_stateful : list static_entry :=
+  [ ("stichwort/policy.hpp", "static-local", "policy");
+    ("stichwort/policy.hpp", "static-member", "s");
+    ("stichwort/policy.hpp", "static-member", "x");
+    ("tapkee/defines/methods.hpp", "global-mutable", "default_computation_strategy");
+    ("tapkee/defines/methods.hpp", "global-mutable", "default_eigen_method");
+    ("tapkee/defines/methods.hpp", "global-mutable", "default_neighbors_method");
+    ("tapkee/defines/random.hpp", "rand", "rand#4");
+    ("tapkee/defines/random.hpp", "rng-object", "rng");
+    ("tapkee/defines/random.hpp", "rng-object", "urng");
+    ("tapkee/defines/random.hpp", "rng-object", "urng_copy");
+    ("tapkee/defines/random.hpp", "static-local", "hook");
+    ("tapkee/routines/manifold_sculpting.hpp", "rand", "rand#1");
+    ("tapkee/routines/matrix_operations.hpp", "static-local", "foo");
+    ("tapkee/utils/logging.hpp", "static-local", "s") ]%string.
+
+Definition inventory_ok (inv : list static_entry) : bool :=
+  forallb known_kind inv && entries_eqb (filter carries_state inv) allowed_stateful.
